@@ -107,7 +107,8 @@ class Kinds:
     def heap_policy(self, h: Term) -> Optional[str]:
         if h[0] != "new" or h[1] != "Heap":
             return None
-        pol = ("const", "min")
+        from .rules_premise import heap_default_policy
+        pol = ("const", heap_default_policy(self.w.repo))
         if len(h[2]) > 1:
             pol = h[2][1]
         for k, v in h[3]:
